@@ -140,14 +140,24 @@ Definition all_fops (c : case) : list fop := flat_map (fun r => map snd (rr_fops
 Definition s0f (c : case) : store := fold_left (fun s f => fapply f s) (all_fops c) (c_s0 c).
 Definition touched (c : case) (k : key) : bool :=
   existsb (fun f => match f with FPut k' _ => seqb k' k | FDel k' => covers k' k end) (all_fops c).
+(** several actors at several instants: the storage as the OTHER actors alone would have made it after each
+    of their operations is S_0 = s0, S_1, .., S_n = sf. A deletion of k by a cleaner is justified by what one
+    of these states held -- for a key the others touched: one of the states from the last such operation on
+    (what a cleaner decided before that operation was overwritten by it; deleting afterwards on the strength of
+    the older state is the check-then-delete window, tracked as a known finding) *)
+Definition ftouches (k : key) (f : fop) : bool :=
+  match f with FPut k' _ => seqb k' k | FDel k' => covers k' k end.
+Fixpoint states_since_touch (k : key) (fs : list fop) (s : store) : list store :=
+  let rest := match fs with [] => [] | f :: r => states_since_touch k r (fapply f s) end in
+  if existsb (ftouches k) fs then rest else s :: rest.
 (** ([sf] = [s0f c], computed once; [just] is a thunk: evaluation is call-by-value) *)
 Definition diff_ok_f (c : case) (sf : store) (k : key) : bool :=
   let s1 := c_s1 c in
   let t := touched c k in
   let base := if t then sf else c_s0 c in
   let just := fun _ : unit =>
-    existsb (fun r => if justified (rr_opts r) (rr_t1 r) sf k then true
-                      else if t then false else justified (rr_opts r) (rr_t1 r) (c_s0 c) k) (c_runs c) in
+    existsb (fun st => existsb (fun r => justified (rr_opts r) (rr_t1 r) st k) (c_runs c))
+            (states_since_touch k (all_fops c) (c_s0 c)) in
   (if file_eqb (file base k) (file s1 k) then true else
    match file s1 k with
    | None => just tt
